@@ -105,6 +105,8 @@ SCOPES = {
     "C01": lambda t: t.fn.name != "occurs",
     "C02": lambda t: t.fn.name != "occurs" and "/typer/" not in t.fn.file,
     "C03": lambda t: "/go/" not in t.fn.file,
+    "C04": lambda t: t.fn.name == "occurs",
+    "C20": lambda t: t.fn.file.endswith("typer/unify.rs"),
 }
 
 
@@ -179,7 +181,7 @@ def r07_2(run, model, only_file=None, scope=None):
         run.floor(f"structural Ty traversals in {only_file}", n, 1)
         return
     if scope is not None and scope != "C07":
-        run.floor(f"structural Ty traversals in the scope of {scope}", n, 8)
+        run.floor(f"structural Ty traversals in the scope of {scope}", n, {"C04": 1, "C20": 3}.get(scope, 8))
         return
     run.floor("structural Ty traversals", n, 18)
     for rel, name in ANCHOR_TRAVERSALS:
